@@ -6,27 +6,36 @@ from common import *
 from sessions import validate_cases
 
 # include graph used by the bounded model (files A and B include each other and A itself)
-FILES = {
-    "A": [("if", "T", ""), ("set", "v1", "w2"), ("else", "", ""), ("set", "v2", "w1"), ("endif", "", ""), ("include", "A", ""), ("include", "B", "")],
-    "B": [("if", "F", ""), ("bind", "s2", "f1"), ("else", "", ""), ("keymap", "k2", ""), ("bind", "s1", "f2"),
-          ("endif", "", ""), ("include", "A", "")],
-}
+FILES_VARIANTS = [
+    # 0: A's own conditional block first, then the (cyclic) includes; B ends in an active $else branch
+    {"A": [("if", "T", ""), ("set", "v1", "w2"), ("else", "", ""), ("set", "v2", "w1"), ("endif", "", ""), ("include", "A", ""), ("include", "B", "")],
+     "B": [("if", "F", ""), ("bind", "s2", "f1"), ("else", "", ""), ("keymap", "k2", ""), ("bind", "s1", "f2"),
+           ("endif", "", ""), ("include", "A", "")]},
+    # 1: the included file ends on a block whose last branch is inactive (true $if followed by $else)
+    {"A": [("include", "B", ""), ("keymap", "k2", ""), ("if", "T", ""), ("bind", "s2", "f2"), ("else", "", ""), ("set", "v2", "w1"), ("endif", "", "")],
+     "B": [("set", "v1", "w2"), ("if", "F", ""), ("bind", "s2", "f1"), ("endif", "", "")]},
+    # 2: nested blocks inside the included file, ending inactive at both levels; no block at all in B
+    {"A": [("if", "F", ""), ("if", "F", ""), ("set", "v1", "w2"), ("endif", "", ""), ("else", "", ""), ("macro", "s1", "m1"), ("include", "B", ""),
+           ("if", "F", ""), ("endif", "", ""), ("endif", "", "")],
+     "B": [("bind", "s2", "f1"), ("keymap", "k2", "")]},
+]
+FILES = FILES_VARIANTS[0]
 
 
 def tla_prog(p):
     return "<< " + ", ".join('[d |-> "%s", a |-> "%s", b |-> "%s"]' % d for d in p) + " >>"
 
 
-def files_def():
-    return "[ " + ",\n  ".join("%s |-> %s" % (k, tla_prog(v)) for k, v in FILES.items()) + " ]"
+def files_def(files=None):
+    return "[ " + ",\n  ".join("%s |-> %s" % (k, tla_prog(v)) for k, v in (files or FILES).items()) + " ]"
 
 
-def mc_modules(open_ids, n, nest):
-    gen = "---- MODULE MC_InputrcGen ----\nEXTENDS InputrcGen\nFilesDef == %s\n====\n" % files_def()
+def mc_modules(open_ids, n, nest, files=None):
+    gen = "---- MODULE MC_InputrcGen ----\nEXTENDS InputrcGen\nFilesDef == %s\n====\n" % files_def(files)
     gencfg = ("SPECIFICATION GSpec\nCONSTANTS N = %d\n          MaxNest = %d\n          Files <- FilesDef\n"
               "INVARIANTS FlatAgree Terminates Export\nCHECK_DEADLOCK FALSE\n" % (n, nest))
     tr = ("---- MODULE MC_InputrcTrace ----\nEXTENDS InputrcTrace\nFilesDef == %s\nOpenDef == {%s}\n====\n"
-          % (files_def(), ", ".join('"%s"' % i for i in open_ids)))
+          % (files_def(files), ", ".join('"%s"' % i for i in open_ids)))
     trcfg = "SPECIFICATION TraceSpec\nCONSTANTS Files <- FilesDef\n          Open <- OpenDef\nPOSTCONDITION Accepted\nCHECK_DEADLOCK FALSE\n"
     return {"MC_InputrcGen.tla": gen, "MC_InputrcGen.cfg": gencfg, "MC_InputrcTrace.tla": tr, "MC_InputrcTrace.cfg": trcfg}
 
@@ -152,16 +161,18 @@ def run(rep, tier, seed):
         progs = small + big[:100000]
         rep.notes.append("6-directive programs sampled: %d of %d" % (100000, len(big)))
     reps = 2
-    cases, meta = [], {}
+    cases, meta, variant = [], {}, {}
     for pi, p in enumerate(progs):
         for k in range(reps):
             env = choose_env(rng)
             cid = "p%d.%d" % (pi, k)
             text = render(p, env, rng, deco=(k > 0))
-            files = {name + ".rc": render(fp, env, rng, deco=False).encode().hex() for name, fp in FILES.items()}
+            var = (pi + k) % len(FILES_VARIANTS)
+            files = {name + ".rc": render(fp, env, rng, deco=False).encode().hex() for name, fp in FILES_VARIANTS[var].items()}
             cases.append({"id": cid, "main": text.encode().hex(), "files": files, "mode": env["mode"], "term": env["term"],
                           "app": env["app"], "timems": 10000})
             meta[cid] = (p, env, text)
+            variant[cid] = var
     log("C13: %d programs, %d cases" % (len(progs), len(cases)))
     bycase = run_harness("parse", cases, os.path.join(wd, "run"), timeout=1800)
     per = {}
@@ -191,19 +202,26 @@ def run(rep, tier, seed):
                    for i in (0, len(cases) // 2, len(cases) - 1) if cases[i]["id"] in per]
     open_ids = [k["id"] for k in open_findings("C13")]
     tvwd = os.path.join(wd, "tv")
-    rejected = validate_cases(rep, tvwd, "MC_InputrcTrace", "MC_InputrcTrace.cfg", per, label="InputrcTrace",
-                              constants=mc_modules(open_ids, n, 3), max_rejects=8)
-    # deviations taken are printed by the trace spec
+    # the include graph is a constant of the trace specification: one validation per variant of the included files
+    rejected = {}
     kfw = {k["id"]: k["what"] for k in open_findings("C13")}
-    for kid, cid in getattr(rep, "last_devs", []):
-        rep.known(kid, kfw.get(kid, ""))
+    for var in range(len(FILES_VARIANTS)):
+        pv = {cid: ls for cid, ls in per.items() if variant[cid] == var}
+        if not pv:
+            continue
+        rj = validate_cases(rep, "%s-v%d" % (tvwd, var), "MC_InputrcTrace", "MC_InputrcTrace.cfg", pv, label="InputrcTrace(files %d)" % var,
+                            constants=mc_modules(open_ids, n, 3, FILES_VARIANTS[var]), max_rejects=8)
+        rejected.update(rj)
+        # deviations taken are printed by the trace spec
+        for kid, cid in getattr(rep, "last_devs", []):
+            rep.known(kid, kfw.get(kid, ""))
     for cid, (i, line, raw, viol) in rejected.items():
         rep.violation("parser effects differ from the reference evaluator: program %s rendered as %r gave %s"
                       % (json.dumps(line["prog"]), raw["text"], json.dumps(line["eff"])),
                       {"kind": "parse", "case": [c for c in cases if c["id"] == cid][0], "program": line["prog"], "raw_event": raw,
-                       "rejected_line": line})
+                       "rejected_line": line, "variant": variant[cid]})
     rep.rule = ("TLC enumerates every well-formed directive program of <= %d directives over {if T/F, else, endif, set keymap, "
-                "2 set, 2 bind, macro, include} with nesting <= 3; each is rendered to concrete inputrc text twice (plain and "
+                "2 set, 2 bind, macro, include} with nesting <= 3, against three variants of the included files (own conditional blocks ending active / inactive / nested, cyclic includes); each is rendered to concrete inputrc text twice (plain and "
                 "decorated: comments, blanks, key-name/quoted/1-char spellings, mode=/term=/app tests) and run through the real "
                 "parser; non-trivial = distinct programs containing a condition and an effect directive" % n)
     rep.exhaustive = tier == "quick" or len(progs) < 150000
@@ -225,7 +243,7 @@ def replay(rep, rp):
             "eff": symbolic_eff(e.get("calls", []), env2)}
     open_ids = [k["id"] for k in open_findings("C13")]
     rej = validate_cases(rep, os.path.join(wd, "tv"), "MC_InputrcTrace", "MC_InputrcTrace.cfg", {cs["id"]: [(line, {})]},
-                         constants=mc_modules(open_ids, 4, 3))
+                         constants=mc_modules(open_ids, 4, 3, FILES_VARIANTS[rp.get("variant", 0)]))
     for cid in rej:
         rep.violation("parser effects differ from the reference evaluator (replay)", rp)
 
